@@ -374,7 +374,11 @@ func showNames(its []fakereg.Item) string {
 // responses as input of the client model (13 tokens each, see ml/c15_main.ml).
 func clientTokens(log []*fakereg.Exchange) (reqs, resp []string) {
 	for _, x := range log {
-		reqs = append(reqs, common.Hex(x.Path)+"?"+obsQuery(valuesKVs(x.Query)))
+		sent := x.SentPath
+		if sent == "" {
+			sent = x.Path
+		}
+		reqs = append(reqs, common.Hex(sent)+"?"+obsQuery(valuesKVs(x.Query)))
 		nu, js := "0", "0"
 		if x.Status == 404 && x.Dec.ErrorCode == "NAME_UNKNOWN" {
 			nu = "1"
@@ -422,7 +426,7 @@ func followedRelFirst(log []*fakereg.Exchange, n int) bool {
 		if n > 0 {
 			want["n"] = []string{strconv.Itoa(n)}
 		}
-		if log[i+1].Path == x.Path && obsQuery(valuesKVs(log[i+1].Query)) == obsQuery(valuesKVs(want)) {
+		if log[i+1].SentPath == x.Path && obsQuery(valuesKVs(log[i+1].Query)) == obsQuery(valuesKVs(want)) {
 			return true
 		}
 	}
@@ -535,8 +539,8 @@ func listCase(sc *Scenario) {
 			if sc.Kind == "R" && sc.AT != "" {
 				want["artifactType"] = []string{sc.AT}
 			}
-			if x.Path != basePath(sc) || obsQuery(valuesKVs(x.Query)) != obsQuery(valuesKVs(want)) {
-				fail("first-request", fmt.Sprintf("first request %s?%s, want %s?%s", x.Path, x.Query.Encode(), basePath(sc), want.Encode()))
+			if x.SentPath != basePath(sc) || obsQuery(valuesKVs(x.Query)) != obsQuery(valuesKVs(want)) {
+				fail("first-request", fmt.Sprintf("first request %s?%s, want %s?%s", x.SentPath, x.Query.Encode(), basePath(sc), want.Encode()))
 			}
 			continue
 		}
@@ -552,8 +556,8 @@ func listCase(sc *Scenario) {
 		if wantN != nil {
 			want["n"] = wantN
 		}
-		if x.Path != prev.TPath || obsQuery(valuesKVs(x.Query)) != obsQuery(valuesKVs(want)) {
-			fail("next-request", fmt.Sprintf("request %d is %s?%s, the link said %s?%s (n configured: %d)", i, x.Path, x.Query.Encode(), prev.TPath, want.Encode(), sc.N))
+		if x.SentPath != prev.TPath || obsQuery(valuesKVs(x.Query)) != obsQuery(valuesKVs(want)) {
+			fail("next-request", fmt.Sprintf("request %d is %s?%s, the link said %s?%s (n configured: %d)", i, x.SentPath, x.Query.Encode(), prev.TPath, want.Encode(), sc.N))
 		}
 	}
 	for i, p := range pages {
@@ -615,6 +619,9 @@ func listCase(sc *Scenario) {
 			}
 			if x.TPath != x.Path {
 				run.Count("link_other_path")
+			}
+			if x.SentPath != x.Path {
+				run.Count("link_after_redirect")
 			}
 			if x.Dec.PreFirst != 0 {
 				run.Count("link_rel_first_stream")
@@ -917,9 +924,12 @@ func genDecision(r *common.Rand, sc *Scenario) fakereg.Decision {
 	if r.Chance(1, 8) {
 		d.RawPairs = []string{common.Pick(r, []string{"tok=a;b", "t=%zz", "sig=x;y;z", "k;1=v", "u=100%"})}
 	}
-	// the next page under another path
+	// the next page under another path; a redirect hop before the answer
 	if r.Chance(1, 8) {
 		d.AltPath = true
+	}
+	if r.Chance(1, 12) {
+		d.Redirect = true
 	}
 	// further link-values and Link lines after the next link (RFC 8288)
 	if r.Chance(1, 6) {
@@ -1956,7 +1966,7 @@ func coverageFloors() {
 		return n
 	}
 	floors := map[string]int{
-		"cursor_opaque": 100, "hidden_entries": 100, "list_empty_page_with_link": 20, "link_raw_pairs": 50, "link_other_path": 50, "link_further_values": 100, "link_rel_first_stream": 5,
+		"cursor_opaque": 100, "hidden_entries": 100, "list_empty_page_with_link": 20, "link_raw_pairs": 50, "link_other_path": 50, "link_after_redirect": 30, "link_further_values": 100, "link_rel_first_stream": 5,
 		"list_link_missing_midway": 5, "json_shape_variant": 100, "registry_page": 1000, "exhaustive": 200,
 		"link_variant_0": 100, "link_variant_1": 100, "link_variant_2": 100, "link_variant_3": 100, "link_variant_4": 100,
 		"list_T_": 1000, "list_K_": 500, "list_R_": 1000, "list_T_ErrCallback": 5, "list_R_ErrDecode": 5, "list_K_ErrLink": 3,
